@@ -48,7 +48,7 @@ theorem C05_key_failure_discards (s : St) (cfg : InCfg) (args : Args) (body : Pr
 theorem C05_handler_failure_discards (cfg : InCfg) (args : Args) (k0 : Key) (s : St) (v : Val)
     (f : Args → Val → Option Val) (hf : cfg.prepare = some f) (hfail : f args v = none) :
     (afterInput cfg args k0 s (.ret v)).active = none := by
-  simp only [afterInput, hf, hfail]
+  simp only [afterInput, envelopeOf, hf, hfail, Option.map_none]
   unfold doDiscard; split <;> simp_all [resetActive]
 
 /-- … likewise for an output whose data handler raises. -/
